@@ -112,7 +112,7 @@ fn run_uist(sc: &Value) -> Value {
             }
         }
     }
-    json!({ "snaps": snaps, "results": results })
+    json!({ "snaps": snaps, "results": results, "order_size": std::mem::size_of::<rotala::exchange::uist_v1::Order>() })
 }
 
 // ---------------------------------------------------------------------------------------------
@@ -237,7 +237,7 @@ fn run_jura(sc: &Value) -> Value {
             }
         }
     }
-    json!({ "snaps": snaps, "results": results })
+    json!({ "snaps": snaps, "results": results, "order_size": std::mem::size_of::<rotala::exchange::jura_v1::Order>() })
 }
 
 pub fn run(sc: &Value) -> Value {
